@@ -1,7 +1,224 @@
 package main
 
-func variantsImpl(id, repo, verif string, baseClean bool) map[string]interface{} {
-	return map[string]interface{}{}
+import (
+	"encoding/json"
+	"fmt"
+	"io"
+	"os"
+	"os/exec"
+	"path/filepath"
+	"sort"
+	"strings"
+	"sync"
+)
+
+// Self-validation of the checker (thorough tier): break variants must be reported, keep variants must stay silent.
+// Variants are applied to a scratch copy outside /repo and /verif, analysed in a separate process each, and the copy
+// is removed at once. Results never turn into VIOLATION lines: they speak about the checker, not about /repo.
+
+type variant struct {
+	kind string // break | keep | seeded
+	name string
+	path string
 }
 
-func runSelfTest(verif string) int { return 0 }
+func listVariants(id, verif string) []variant {
+	var out []variant
+	for _, kind := range []string{"break", "keep"} {
+		ms, _ := filepath.Glob(filepath.Join(verif, "variants", id, kind, "*.patch"))
+		sort.Strings(ms)
+		for _, m := range ms {
+			out = append(out, variant{kind, strings.TrimSuffix(filepath.Base(m), ".patch"), m})
+		}
+	}
+	ms, _ := filepath.Glob(filepath.Join(verif, "seeded", id+"-*", "patch.diff"))
+	sort.Strings(ms)
+	for _, m := range ms {
+		out = append(out, variant{"seeded", filepath.Base(filepath.Dir(m)), m})
+	}
+	return out
+}
+
+func copyTree(src, dst string) error {
+	return filepath.Walk(src, func(path string, info os.FileInfo, err error) error {
+		if err != nil {
+			return err
+		}
+		rel, _ := filepath.Rel(src, path)
+		if rel == ".git" || strings.HasPrefix(rel, ".git"+string(filepath.Separator)) {
+			if info.IsDir() {
+				return filepath.SkipDir
+			}
+			return nil
+		}
+		target := filepath.Join(dst, rel)
+		if info.IsDir() {
+			return os.MkdirAll(target, 0o755)
+		}
+		if !info.Mode().IsRegular() {
+			return nil
+		}
+		in, err := os.Open(path)
+		if err != nil {
+			return err
+		}
+		defer in.Close()
+		out, err := os.Create(target)
+		if err != nil {
+			return err
+		}
+		defer out.Close()
+		_, err = io.Copy(out, in)
+		return err
+	})
+}
+
+type variantResult struct {
+	v        variant
+	status   string // detected | silent | missed | alarmed | skipped | invalid
+	newKeys  []string
+	note     string
+}
+
+func runOneVariant(v variant, id, repo, verif string, known map[string]Finding) variantResult {
+	res := variantResult{v: v}
+	dir, err := os.MkdirTemp("", "cloakvariant-")
+	if err != nil {
+		res.status, res.note = "skipped", err.Error()
+		return res
+	}
+	defer os.RemoveAll(dir)
+	scratch := filepath.Join(dir, "tree")
+	if err := copyTree(repo, scratch); err != nil {
+		res.status, res.note = "skipped", err.Error()
+		return res
+	}
+	ap := exec.Command("patch", "-p1", "-s", "--no-backup-if-mismatch", "-i", v.path)
+	ap.Dir = scratch
+	if out, err := ap.CombinedOutput(); err != nil {
+		res.status, res.note = "skipped", "patch no longer applies to the current tree: "+firstLines(string(out), 2)
+		return res
+	}
+	self, _ := os.Executable()
+	emit := filepath.Join(dir, "obs.json")
+	cmd := exec.Command(self, "-prop", id, "-repo", scratch, "-verif", verif, "-emit", emit)
+	cmd.Env = append(os.Environ(), "CLOAKCHECK_EVIDENCE_DIR="+filepath.Join(dir, "ev"))
+	if out, err := cmd.CombinedOutput(); err != nil {
+		res.status, res.note = "skipped", "sub-analysis failed: "+firstLines(string(out), 3)
+		return res
+	}
+	b, _ := os.ReadFile(emit)
+	var r struct {
+		LoadError   string `json:"load_error"`
+		Obligations []Ob   `json:"obligations"`
+	}
+	if json.Unmarshal(b, &r) != nil {
+		res.status, res.note = "skipped", "unreadable sub-analysis output"
+		return res
+	}
+	if r.LoadError != "" {
+		res.status, res.note = "invalid", "variant does not type-check: "+firstLines(r.LoadError, 2)
+		return res
+	}
+	for _, o := range r.Obligations {
+		if o.Status == "OK" {
+			continue
+		}
+		if _, isKnown := known[id+"|"+o.Key()]; isKnown {
+			continue
+		}
+		res.newKeys = append(res.newKeys, o.Status+" "+o.Key())
+	}
+	switch v.kind {
+	case "keep":
+		if len(res.newKeys) == 0 {
+			res.status = "silent"
+		} else {
+			res.status = "alarmed"
+		}
+	default:
+		if len(res.newKeys) > 0 {
+			res.status = "detected"
+		} else {
+			res.status = "missed"
+		}
+	}
+	return res
+}
+
+func variantsImpl(id, repo, verif string, baseClean bool) map[string]interface{} {
+	vs := listVariants(id, verif)
+	known, _ := loadFindings(verif)
+	results := make([]variantResult, len(vs))
+	sem := make(chan struct{}, 6)
+	var wg sync.WaitGroup
+	for i, v := range vs {
+		if v.kind == "keep" && !baseClean {
+			results[i] = variantResult{v: v, status: "skipped", note: "base tree is not clean; keep variants are only judged on a passing tree"}
+			continue
+		}
+		wg.Add(1)
+		go func(i int, v variant) {
+			defer wg.Done()
+			sem <- struct{}{}
+			defer func() { <-sem }()
+			results[i] = runOneVariant(v, id, repo, verif, known)
+		}(i, v)
+	}
+	wg.Wait()
+	cnt := map[string]int{}
+	var details []map[string]interface{}
+	for _, r := range results {
+		cnt[r.v.kind+"_total"]++
+		cnt[r.v.kind+"_"+r.status]++
+		d := map[string]interface{}{"kind": r.v.kind, "name": r.v.name, "status": r.status}
+		if len(r.newKeys) > 0 {
+			k := r.newKeys
+			if len(k) > 3 {
+				k = k[:3]
+			}
+			d["reported"] = k
+		}
+		if r.note != "" {
+			d["note"] = r.note
+		}
+		details = append(details, d)
+		switch r.status {
+		case "missed":
+			fmt.Printf("CHECKER-DEFICIENCY property=%s %s variant %q is not detected\n", id, r.v.kind, r.v.name)
+		case "alarmed":
+			fmt.Printf("CHECKER-DEFICIENCY property=%s keep variant %q raises %v\n", id, r.v.name, r.newKeys)
+		case "skipped", "invalid":
+			fmt.Printf("variant %s/%s %s: %s\n", r.v.kind, r.v.name, r.status, r.note)
+		default:
+			fmt.Printf("variant %-7s %-45s %s\n", r.v.kind, r.v.name, r.status)
+		}
+	}
+	return map[string]interface{}{
+		"variants": map[string]interface{}{
+			"break_total": cnt["break_total"], "break_detected": cnt["break_detected"], "break_missed": cnt["break_missed"],
+			"keep_total": cnt["keep_total"], "keep_silent": cnt["keep_silent"], "keep_alarmed": cnt["keep_alarmed"],
+			"seeded_total": cnt["seeded_total"], "seeded_detected": cnt["seeded_detected"], "seeded_missed": cnt["seeded_missed"],
+			"skipped": cnt["break_skipped"] + cnt["keep_skipped"] + cnt["seeded_skipped"], "invalid": cnt["break_invalid"] + cnt["keep_invalid"] + cnt["seeded_invalid"],
+			"details": details,
+			"note":   "self-validation of the checker on scratch copies; a missed break or an alarmed keep is a deficiency of the checker and is reported as such, never as a violation of /repo",
+		},
+	}
+}
+
+// runVariantsOnly: `cloakcheck -variants <id|all>` — evaluate the corpus without judging /repo.
+func runVariantsOnly(ids []string, repo, verif string) int {
+	bad := 0
+	for _, id := range ids {
+		fmt.Printf("== variants of %s\n", id)
+		r := variantsImpl(id, repo, verif, true)
+		v := r["variants"].(map[string]interface{})
+		fmt.Printf("-- %s: break %v/%v detected, keep %v/%v silent, seeded %v/%v detected, skipped %v, invalid %v\n", id,
+			v["break_detected"], v["break_total"], v["keep_silent"], v["keep_total"], v["seeded_detected"], v["seeded_total"], v["skipped"], v["invalid"])
+		bad += v["break_missed"].(int) + v["keep_alarmed"].(int) + v["seeded_missed"].(int) + v["invalid"].(int)
+	}
+	if bad > 0 {
+		return 1
+	}
+	return 0
+}
